@@ -5,7 +5,7 @@
 From Coq Require Import List ZArith QArith Bool.
 Import ListNotations.
 Require Import QV.C09.Model QV.C09.Corr QV.C09.Proofs QV.C09.Proofs2 QV.C09.Proofs3 QV.C09.Proofs4 QV.C09.Proofs5 QV.C09.Proofs6
-               QV.C09.Proofs6x QV.C09.Proofs7 QV.C09.Proofs7x QV.C09.Proofs8 QV.C09.ProofsR QV.C09.ProofsE QV.C09.ProofsF QV.C09.Proofs9.
+               QV.C09.Proofs6x QV.C09.Proofs7 QV.C09.Proofs7x QV.C09.Proofs8 QV.C09.ProofsR QV.C09.ProofsE QV.C09.ProofsF QV.C09.Proofs9 QV.C09.Proofs10.
 
 (* every freshly constructed tree (Loop(...) with nested children, any counts / waveforms / measurements) satisfies Inv *)
 Theorem C09_init : forall t, sInv (init_state t).
@@ -122,7 +122,9 @@ Theorem C09_unroll_children_preserves : forall h r x h' res,
 Proof. exact unroll_children_inv. Qed.
 Print Assumptions C09_unroll_children_preserves.
 
-(* if x._has_single_child_that_can_be_merged(): x._merge_single_child()  (all four volatile cases, measurements) *)
+(* if x._has_single_child_that_can_be_merged(): x._merge_single_child()  (all four volatile cases, measurements; round 3:
+   including the emptying of the merged child, repair 62653bd / 0aafc15: `child[:] = ()` touches the unreachable husk and
+   clears caches along whatever parent chain it still records) *)
 Theorem C09_merge_preserves : forall vctr h r x h' res,
   Inv h r -> reach h r x -> try_merge vctr x h = (h', res) -> ok_result res -> Inv h' r.
 Proof. intros. eapply try_merge_inv; eauto. Qed.
@@ -247,12 +249,31 @@ Print Assumptions C09_history_basic_total.
    structural operations: the primitives are total (above), the threading through every operation is not done *)
 Definition C09_history_total_statement : Prop := forall ops s,
   sInv s -> forallb guard_C09_args ops = true -> run_ok s ops /\ sInv (run s ops).
-(* open: every tree the user holds (the program and every node that dropped out of it) keeps the invariant under
-   operations on any of them (fstep); tested by the correspondence check only *)
-Definition C09_forest_statement : Prop := forall ops fs,
+(* round 3: Loop.add_measurements (reads body_duration, which memoises; writes the measurement list), any node, any windows,
+   whatever the outcome *)
+Theorem C09_add_measurements_preserves : forall h r x ms h' res,
+  Inv h r -> reach h r x -> add_measurements x ms h = (h', res) -> Inv h' r.
+Proof. exact add_measurements_inv. Qed.
+Print Assumptions C09_add_measurements_preserves.
+
+(* the forest statement of round 2 (every tree the user holds - the program and every held node outside it - satisfies Inv,
+   which includes "the root records no parent") is FALSE over the alphabet of round 3: a held copy made with an explicit
+   new_parent records a parent that does not list it (known finding floating-copy-explicit-parent) *)
+Theorem C09_forest_r2_refuted : ~ (forall ops fs,
   sInv (f_main fs) -> f_held fs = [] -> let fs' := frun fs ops in
   sInv (f_main fs') /\ forall m, In m (f_held fs') -> in_tree (st_heap (f_main fs')) (st_root (f_main fs')) m = false ->
-                                 Inv (st_heap (f_main fs')) m.
+                                 Inv (st_heap (f_main fs')) m).
+Proof. exact forest_refuted. Qed.
+Print Assumptions C09_forest_r2_refuted.
+
+(* open (tested by the correspondence check and by check_spec on the program AND on every held tree): inside
+   guard_C09_forest (no held copy with an explicit parent, no held node handed back by FInsert) the program keeps the
+   invariant whatever is done to the nodes that dropped out of it *)
+Definition C09_forest_statement : Prop := forall ops fs,
+  sInv (f_main fs) -> f_held fs = [] -> forallb guard_C09_forest ops = true -> sInv (f_main (frun fs ops)).
+Example C09_forest_guard_nonvacuous :
+  forallb guard_C09_forest [FHold [0%nat]; FMain (OMerge []); FAt 0 (OReverse []); FHoldCopy None [] 0 []] = true.
+Proof. reflexivity. Qed.
 
 (* the model's own observation passes the check that is applied to the implementation's observation *)
 Definition obs_ok (s : state) : bool :=
